@@ -240,6 +240,47 @@ def check_items(col, crate, sfx):
         else:
             col.violation("R9" + sfx, key, b.loc(), "%s::merge does not compute the %s of its operands: %s" % (nm, {"min": "minimum", "max": "maximum", "sum": "sum"}[kind], why))
 
+    # ---------------- R10 the identities the searches start from: Default of Min* is T::MAX, of Max* T::MIN, of Sum* the default
+    # value (and no pending modifier, no length); MinMax::MIN / MAX of the primitive types are their extreme values
+    col.rule("R10" + sfx, "Default of the built-in items is the identity of merge (Min: T::MAX, Max: T::MIN, Sum: default; md and len default); MinMax::MIN/MAX of the primitives are the extreme values", floor=6)
+    for nm, a, fields in plain + lazy:
+        kind = "min" if nm.startswith("Min") else "max" if nm.startswith("Max") else "sum" if nm.startswith("Sum") else None
+        if kind is None:
+            continue
+        impl = _impl_bodies(crate, nm, "Default")
+        key = "%s|default-is-identity" % nm
+        if "default" not in impl:
+            if (impl.get("__impl__") or {}).get("derived") and kind == "sum":
+                col.ok("R10" + sfx, "%s:%d" % (a["span"]["file"], a["span"]["line"]), key, "derived Default: every field default()", nontrivial=False)
+            elif "__impl__" in impl:
+                col.violation("R10" + sfx, key, "%s:%d" % (a["span"]["file"], a["span"]["line"]), "%s derives Default: its value field is T::default(), not the identity of %s" % (nm, kind))
+            continue
+        b = impl["default"]
+        I = A(b)
+        ok, why = bool(I.final_states), ""
+        for st in I.final_states:
+            agg = _resolve_ctor(crate, nm, util.ret_term(st), st)
+            if agg is None:
+                ok, why = False, "cannot resolve the value returned (%s)" % tstr(util.ret_term(st))[:80]
+                break
+            v = agg[fields.index("v")]
+            if kind == "sum":
+                good = _is_default(v)
+            else:
+                good = isinstance(v, tuple) and v and v[0] == "assoc" and str(v[1]).endswith("MinMax") and v[2] == ("MAX" if kind == "min" else "MIN")
+            if not good:
+                ok, why = False, "v = %s" % tstr(v)[:80]
+            for fn_ in ("md", "len"):
+                if fn_ in fields and not _is_default(agg[fields.index(fn_)]):
+                    ok, why = False, "%s = %s" % (fn_, tstr(agg[fields.index(fn_)])[:60])
+        if ok:
+            col.ok("R10" + sfx, b.loc(), key, {"min": "v = T::MAX", "max": "v = T::MIN", "sum": "v = default()"}[kind])
+        else:
+            col.violation("R10" + sfx, key, b.loc(), "%s::default() is not the identity of its merge (%s): a search starts its carry from this value" % (nm, why))
+    nt = crate.program.crates.get("rlib_num_traits") if hasattr(crate, "program") and crate.program is not None else None
+    if nt is not None:
+        _rule_minmax(col, nt, "R10" + sfx)
+
     # ---------------- R8 combinator
     impl = _impl_bodies(crate, "Combinator", "SegtreeItem")
     if "__impl__" not in impl:
@@ -349,6 +390,42 @@ def _strip_clone(t):
         if inner[0] not in ("constval", "field"):
             break
     return t
+
+
+_EXTREME = {}
+for _w in (8, 16, 32, 64, 128):
+    _EXTREME["i%d" % _w] = (-(1 << (_w - 1)), (1 << (_w - 1)) - 1)
+    _EXTREME["u%d" % _w] = (0, (1 << _w) - 1)
+_EXTREME["isize"], _EXTREME["usize"] = _EXTREME["i64"], _EXTREME["u64"]
+# floats as bit patterns: the most negative / positive finite value, or the infinities
+_EXTREME_F = {"f32": ({0xFF7FFFFF, 0xFF800000}, {0x7F7FFFFF, 0x7F800000}), "f64": ({0xFFEFFFFFFFFFFFFF, 0xFFF0000000000000}, {0x7FEFFFFFFFFFFFFF, 0x7FF0000000000000})}
+
+
+def _rule_minmax(col, nt, rid):
+    imps = {i["key"]: i for i in nt.impls}
+    n = 0
+    for k in nt.consts:
+        imp = imps.get(k.get("parent"))
+        if imp is None or k["name"] not in ("MIN", "MAX") or not str(imp.get("trait") or "").endswith("MinMax"):
+            continue
+        ty = imp["self_ty"]
+        if ty not in _EXTREME and ty not in _EXTREME_F:
+            continue
+        n += 1
+        try:
+            val = int(k.get("val"))
+        except (TypeError, ValueError):
+            val = None
+        i = 0 if k["name"] == "MIN" else 1
+        good = (val == _EXTREME[ty][i]) if ty in _EXTREME else (val in _EXTREME_F[ty][i])
+        key = "<%s as MinMax>::%s" % (ty, k["name"])
+        loc = "%s:%d" % (k["span"]["file"], k["span"]["line"])
+        if good:
+            col.ok(rid, loc, key, "the type's extreme value", nontrivial=False)
+        else:
+            col.violation(rid, key, loc, "%s evaluates to %s, which is not the %s value of %s: Default of Min/Max items built on it is not the identity of merge (a search over values beyond it starts from a wrong carry)" % (key, k.get("val"), "smallest" if i == 0 else "largest", ty))
+    if n < 28:
+        col.violation(rid, "num_traits|minmax-coverage", "rlib/num_traits/src/lib.rs", "expected MinMax::MIN and MAX for the 12 primitive integer types and the two float types, found %d constants" % n)
 
 
 def _is_default(t):
